@@ -70,6 +70,15 @@ def ext_value_ok(I, st, base, expr, cls, nib_aff, at):
         return False, 1
     # ext16: expr = r + 269 with r's high byte = byte at `at`, low byte = byte at `at`+1
     r = expr - FR["ext16_bias"]
+    # affine spelling: r = 256 * byte(at) + byte(at + 1)
+    if r.c == 0 and len(r.t) == 2:
+        byco = {co: sy for sy, co in r.t}
+        if set(byco) == {256, 1}:
+            ih, il = I.syminfo.get(byco[256]), I.syminfo.get(byco[1])
+            if ih and il and ih[0] == "elem" and il[0] == "elem" and ih[1] == base and il[1] == base \
+                    and st.entails_eq(ih[2], at) and st.entails_eq(il[2], at + 1) \
+                    and st.range(Aff.sym(byco[256])) == (0, 255) and st.range(Aff.sym(byco[1])) == (0, 255):
+                return True, 2
     sg = r.single()
     if sg is None or sg[1] != 1 or sg[2] != 0:
         return False, 2
